@@ -30,7 +30,17 @@ RULE = ("cells = solver family x (problem shape, storage, shift, start vector, p
         "operator forms; LM: zero / orthogonal / tiny data of the quadratically perturbed linear problem and zero / tiny data of "
         "the exponential fit.  Both facets are judged by the same independent dense optimality systems, at a tolerance that is "
         "relative to the problem and accounts for the solver's stopping rule being relative to the INITIAL residual / gradient; "
-        "every input is a legal float64 ndarray problem, so a raise is a violation.  A cell is non-trivial when the solver stopped "
+        "every input is a legal float64 ndarray problem, so a raise is a violation.  RESTRICTED-DOMAIN facet (LM): curve fits "
+        "r_i(x) = phi(x0 + x1 t_i) - y_i, phi in {log, sqrt, reciprocal (positive branch)}, 9 abscissae in [-1, 1], exact (zero-residual) "
+        "and perturbed data, whose residual is only defined where x0 + x1 t_i > 0, run from EVERY point of a lattice of in-domain starts "
+        "(a, a rho) far from the minimiser so that trial steps leave the domain for some components / for all components, crossed with "
+        "the user's out-of-domain convention {NaN, +inf, -inf in the offending components; whole vector NaN; whole vector +inf} and the "
+        "documented (sparse flag, Jacobian type) pairs [and gradtol, thorough]; the residual handed to the solver classifies every "
+        "evaluation the solver makes (evidence counters domain:trial-residual-partly-nonfinite / -all-nonfinite / -with-nan / -with-inf, "
+        "domain:runs-with-partly-nonfinite-trial, domain:runs-never-leaving-domain); oracle as for the other LM cells: an explicit raise "
+        "after a non-finite trial residual, or a point returned before maxit that is finite, has a finite residual and Jacobian (lies in "
+        "the domain) and ||J^T r|| small relative to the start, with info['func'] / info['Jac'] belonging to it; such a cell is "
+        "non-trivial when the run converged AND at least one trial residual was non-finite.  A cell is non-trivial when the solver stopped "
         "by its own convergence test (before maxit) or, for prox cells, when the lattice has points on both sides of every bound")
 BOUND = {
     "quick": "CGLS: 3 shapes (6x4,5x5,3x5) x dense/sparse x shift{0,.5} x 4 starts x {matrix,function}; PCGLS: same x "
@@ -48,14 +58,18 @@ BOUND = {
              "6x4 x the same 4 regularisers x ones at 2^10 only, LM {expfit, rosenbrock, quadpert} x 2 starts x {sparse+csr, dense}; right-hand-side structure {0, orthogonal to "
              "range(A) (m>n), 2^-40 b}: CGLS 3 shapes x shift{0,.5} x {zero,ones,far}, PCGLS same x P{I, lower bidiagonal} x {explicit "
              "inverse, solve}, FISTA and ISTA 6x4 x 4 regularisers x {zero,ones,far} and 3x5 x {zero,ones}, LM quadpert x {0, orthogonal, "
-             "tiny} and expfit x {0, tiny} x 2 starts x {sparse+csr, dense}; all dense storage, both operator forms",
+             "tiny} and expfit x {0, tiny} x 2 starts x {sparse+csr, dense}; all dense storage, both operator forms; LM restricted domain: "
+             "{log, sqrt, reciprocal} x {exact, perturbed data} x 5 out-of-domain conventions x {sparse+csr, dense} x starts (a, a rho), "
+             "a in {16, 64}, rho in {0, +-.375, +-.75} (600 runs, maxit 1000, gradtol 1e-9)",
     "thorough": "as quick with 4 shapes (adds 8x6), every start for every solver, 6 boxes, 4 L1 strengths, finer lattices "
                 "(d=2: 25^2, d=3: 13^3), 3 step sizes; start representation adds int32 and integer list, sparse storage, all 4 "
                 "preconditioners, FISTA on all shapes x 5 regularisers x far start, LM Rosenbrock from integer starts, "
                 "all 10 minimize methods with and without gradient; start scale and right-hand-side structure facets: 4 shapes, dense "
                 "and sparse storage, all 4 preconditioners, all three non-zero starts for PCGLS, ISTA all shapes with m>=n x all "
                 "regularisers x 3 step sizes at 2^{10,20,30} and the under-determined 3x5 at 2^10 (dense, largest step), FISTA (momentum) "
-                "3 shapes with m>=n at 2^10 and 2^20 (dense, largest step), structure cells for FISTA/ISTA on all 4 shapes x 3 starts",
+                "3 shapes with m>=n at 2^10 and 2^20 (dense, largest step), structure cells for FISTA/ISTA on all 4 shapes x 3 starts; "
+                "LM restricted domain: starts a in {4, 8, 16, 32, 64} x rho in {0, +-.375, +-.75, +-.875} (35 starts), and the quick "
+                "starts additionally with gradtol 1e-15 (below round-off)",
 }
 ASSUMPTIONS = [
     "numpy dense linear algebra (solve, lstsq, svd) is the trusted base of all reference optimality systems",
@@ -92,6 +106,17 @@ ASSUMPTIONS = [
     "1e-10 ||J|| ||r||) since the stopping rule is relative to it; a scaled start at which the residual/Jacobian is not finite or "
     "the Jacobian is numerically rank deficient (exp underflow: sigma_min <= 1e-12 sigma_max) lies outside the regular domain: "
     "the cell is counted, not run; a start with exactly zero gradient (zero data, zero start) is itself stationary and returning it after 0 iterations meets the demand (0 <= 0)",
+    "restricted-domain LM cells: a residual that is not finite at a trial point is read as 'the trial point is outside the problem' - "
+    "the statement's stationary point must be a point where the sum of squares exists, so a returned x with a non-finite residual "
+    "or Jacobian is a violation (nonfinite-result) however the loop ended; a raise is accepted as an explicit refusal only after the "
+    "solver has seen a non-finite residual (before that the problem is indistinguishable from a smooth one: violation); "
+    "stationarity is demanded relative to the initial gradient (1e-7 ||J0^T r0|| + 1e-10 ||J|| ||r||) only for runs ending before "
+    "maxit = 1000; with perturbed data a run that reaches maxit only counts (the decrease of f falls below the rounding of f before a "
+    "relative gradient reduction of 1e-9 is reached for a few starts, every further step is rejected and the damping overflows), with "
+    "exact data and gradtol 1e-9 reaching maxit is reported (no-convergence): f tends to 0 and its decrease stays resolvable; only the "
+    "documented (sparse=True, csr) and (sparse=False, dense) pairs are enumerated for this facet (the other two raise in the base "
+    "product already); which starts produce partly / entirely non-finite trial residuals is an observed property of the run, "
+    "recorded in the evidence counters, not an input of the enumeration",
 ]
 
 SHAPES_Q = [(6, 4), (5, 5), (3, 5)]
@@ -112,6 +137,12 @@ SCALES = [10, 20, 30]
 # right-hand-side / solution STRUCTURE facet: b = 0, b exactly orthogonal to range(A) (m > n), b = 2^-40 x catalogue b
 BKINDS = ["zero", "orth", "tiny"]
 TINY = 2.0 ** -40
+# LM on residuals with a RESTRICTED DOMAIN: r_i(x) = phi(x0 + x1 t_i) - y_i, t = -1, -.75, ..., 1, defined where x0 + x1 t_i > 0
+DOM_FAMS = ["log", "sqrt", "recip"]                   # phi = log, sqrt, 1/. (positive branch)
+DOM_OOB = ["nan", "+inf", "-inf", "nan-all", "inf-all"]   # what the user's residual returns outside the domain
+DOM_MAG_Q, DOM_MAG_T = [16, 64], [4, 8, 16, 32, 64]   # start (a, a*rho): every start lies inside the domain (|rho| < 1)
+DOM_RHO_Q, DOM_RHO_T = [-0.75, -0.375, 0.0, 0.375, 0.75], [-0.875, -0.75, -0.375, 0.0, 0.375, 0.75, 0.875]
+DOM_MAXIT = 1000
 
 
 # ----------------------------------------------------------------------------------------
@@ -163,6 +194,7 @@ def cells(tier, seed):
                                     "gradtol": gradtol, "cat": k})
     out.append({"kind": "lm", "prob": "explicit", "sparse": False, "jtype": "dense", "start": 0, "cat": k})
     out.append({"kind": "lm", "prob": "explicit", "sparse": False, "jtype": "dense", "start": 1, "cat": k})
+    out.extend(_domain_cells(q, k))
     # wrappers
     for grad in (True, False):
         for kw in ("none", "bounds", "maxiter1", "maxfun3"):
@@ -228,6 +260,24 @@ def cells(tier, seed):
     for d in (1, 2, 3):
         for (ok, op) in ops:
             out.append({"kind": "prox", "op": ok, "par": op, "d": d, "fine": not q, "cat": k})
+    return out
+
+
+def _domain_cells(q, k):
+    """LM cells of the RESTRICTED-DOMAIN facet: residual family x data (exact / noisy) x out-of-domain convention x documented
+    (sparse flag, Jacobian type) x the complete lattice of in-domain starts (a, a rho) [x gradtol, thorough]."""
+    out = []
+    mags, rhos = (DOM_MAG_Q, DOM_RHO_Q) if q else (DOM_MAG_T, DOM_RHO_T)
+    for fam in DOM_FAMS:
+        for ydata in ("exact", "noisy"):
+            for oob in DOM_OOB:
+                for (sparse_flag, jtype) in ((True, "csr"), (False, "dense")):
+                    for a in mags:
+                        for rho in rhos:
+                            gts = ("reachable",) if (q or a not in DOM_MAG_Q or rho not in DOM_RHO_Q) else ("reachable", "below-roundoff")
+                            for gradtol in gts:
+                                out.append({"kind": "lm", "prob": "domain", "fam": fam, "ydata": ydata, "oob": oob, "sparse": sparse_flag,
+                                            "jtype": jtype, "mag": a, "rho": rho, "gradtol": gradtol, "cat": k})
     return out
 
 
@@ -1186,6 +1236,9 @@ def _eval_lm(cell, res):
         if info["nfev"] < 50 and np.linalg.norm(g) > 1e-7:
             res.fail("C16|LM|stationarity|form=matrix", "matrix form returned a non-stationary point of ||Ax||^2, |grad|=%.3g" % np.linalg.norm(g), x=x)
         return
+    if cell["prob"] == "domain":
+        _eval_lm_domain(cell, res)
+        return
     if cell.get("facet"):
         _eval_lm_wide(cell, res, maxit)
         return
@@ -1329,6 +1382,167 @@ def _eval_lm_wide(cell, res, maxit):
     except Exception as e:
         res.fail("C16|LM|info|%s" % fac, "info unusable: %r" % (e,))
     res.sample = {"x0": x0, "x": x, "grad_norm": gn, "initial_grad_norm": g0n, "iterations": it}
+
+
+def _domain_problem(fam, ydata, oob, k):
+    """Curve fit with a restricted domain: r_i(x) = phi(x0 + x1 t_i) - y_i on t = -1, -0.75, ..., 1 (9 points), phi = log / sqrt /
+    reciprocal (positive branch), defined where u_i = x0 + x1 t_i > 0.  Data: phi at x* = (2, 1.5 - k/4), exact or with the
+    catalogue perturbation 0.02 dyadic_vec.  Outside the domain the user's residual follows the convention `oob`:
+    'nan' / '+inf' / '-inf' in exactly the offending components (what numpy's log / sqrt do, resp. a user marking them), or
+    the WHOLE vector NaN / +inf ('nan-all', 'inf-all': a user function that gives up as soon as one argument is illegal).
+    A non-finite x gives NaN.  The Jacobian rows follow the residual (NaN where the residual is not defined).
+    Returns r, J and a counter dict (active while cnt['on']) classifying every residual evaluation made by the solver."""
+    t = 0.25 * np.arange(-4, 5)
+    m = len(t)
+    xt = np.array([2.0, 1.5 - 0.25 * k])
+    if fam == "log":
+        phi, dphi = np.log, (lambda u: 1.0 / u)
+    elif fam == "sqrt":
+        phi, dphi = np.sqrt, (lambda u: 0.5 / np.sqrt(u))
+    elif fam == "recip":
+        phi, dphi = (lambda u: 1.0 / u), (lambda u: -1.0 / u ** 2)
+    else:
+        raise ValueError(fam)
+    y = phi(xt[0] + xt[1] * t)
+    if ydata == "noisy":
+        y = y + 0.02 * refs.dyadic_vec(m, k)
+    elif ydata != "exact":
+        raise ValueError(ydata)
+    if oob not in DOM_OOB:
+        raise ValueError(oob)
+    cnt = {"on": False, "evals": 0, "partly": 0, "all": 0, "inf": 0, "nan": 0}
+
+    def split(x):
+        x = np.asarray(x, float).ravel()
+        with np.errstate(all="ignore"):
+            u = x[0] + x[1] * t
+        return u, ~(u > 0), np.isnan(u)
+
+    def r(x):
+        u, outd, und = split(x)
+        v = phi(np.where(outd, 1.0, u)) - y
+        if outd.any():
+            if oob in ("nan-all", "inf-all"):
+                v = np.full(m, np.nan if oob == "nan-all" else np.inf)
+            else:
+                v[outd] = {"nan": np.nan, "+inf": np.inf, "-inf": -np.inf}[oob]
+            v[und] = np.nan
+        if cnt["on"]:
+            bad = int(np.sum(~np.isfinite(v)))
+            cnt["evals"] += 1
+            cnt["partly"] += 1 if 0 < bad < m else 0
+            cnt["all"] += 1 if bad == m else 0
+            cnt["inf"] += 1 if np.any(np.isinf(v)) else 0
+            cnt["nan"] += 1 if np.any(np.isnan(v)) else 0
+        return v
+
+    def J(x):
+        u, outd, _ = split(x)
+        d = dphi(np.where(outd, 1.0, u))
+        if outd.any():
+            d = np.where(outd | (oob in ("nan-all", "inf-all")), np.nan, d)
+        return np.column_stack([d, t * d])
+    return r, J, cnt
+
+
+def _eval_lm_domain(cell, res):
+    """LM on a residual with a RESTRICTED DOMAIN, from every start of a lattice of in-domain points far from the minimiser, so that
+    trial steps leave the domain (for some components, for all components, NaN or +-inf according to the user's convention).
+    Oracle (unchanged): the solver raises after having met a non-finite trial residual (explicit refusal - counted), or the point
+    it returns before maxit is finite, the residual there is finite (x lies inside the domain) and ||J^T r|| is small relative to
+    the start, and info['func'] / info['Jac'] belong to that point.  A raise while every residual evaluation was finite is a raise
+    on an (as far as the solver can tell) smooth documented problem: violation.  Exact (zero-residual) data with a reachable
+    gradtol must converge within maxit - the reductions of f are relative there, rounding cannot stall the acceptance test."""
+    import scipy.sparse as sp
+    from cuqi.solver import LM
+    k, fam, ydata, oob = cell["cat"], cell["fam"], cell["ydata"], cell["oob"]
+    r, J, cnt = _domain_problem(fam, ydata, oob, k)
+    x0 = np.array([float(cell["mag"]), float(cell["mag"]) * float(cell["rho"])])
+    jac = (lambda x: sp.csr_matrix(J(x))) if cell["jtype"] == "csr" else J
+    fac = "restricted-domain,oob=%s" % oob
+    gradtol = 1e-9 if cell["gradtol"] == "reachable" else 1e-15
+    maxit = DOM_MAXIT
+    res.state("%s,%s,oob=%s,sparse=%s,jac=%s,start=(%g,%g),gradtol=%s" % (fam, ydata, oob, cell["sparse"], cell["jtype"], x0[0], x0[1],
+                                                                          cell["gradtol"]))
+    r0, J0 = r(x0), J(x0)
+    if not (np.all(np.isfinite(r0)) and np.all(np.isfinite(J0))):
+        raise ValueError("lattice start %s outside the domain" % x0.tolist())      # harness error: starts are in-domain by construction
+    g0n = float(np.linalg.norm(J0.T @ r0))
+    x0c = x0.copy()
+    cnt["on"] = True
+    err = None
+    try:
+        x, info = LM(r, x0c, jac, maxit=maxit, tol=1e-12, gradtol=gradtol, sparse=cell["sparse"]).solve()
+        it = int(info["nfev"])
+        x = np.asarray(x, float).ravel()
+        if x.shape != x0.shape:
+            raise ValueError("returned point has shape %s" % (x.shape,))
+    except Exception as e:
+        err = e
+    finally:
+        cnt["on"] = False
+    left = cnt["partly"] + cnt["all"]
+    res.count("domain:residual-evaluations-by-solver", cnt["evals"])
+    res.count("domain:trial-residual-partly-nonfinite", cnt["partly"])
+    res.count("domain:trial-residual-all-nonfinite", cnt["all"])
+    res.count("domain:trial-residual-with-nan", cnt["nan"])
+    res.count("domain:trial-residual-with-inf", cnt["inf"])
+    res.count("domain:runs-with-partly-nonfinite-trial", 1 if cnt["partly"] else 0)
+    res.count("domain:runs-never-leaving-domain", 0 if left else 1)
+    cls = ("partly+all" if cnt["all"] else "partly") if cnt["partly"] else ("all" if cnt["all"] else "never-left")
+    if err is not None:
+        res.refused += 1
+        res.nontrivial = False
+        res.outcomes.add("domain:raises:%s:%s" % (type(err).__name__, cls))
+        if not left:
+            res.fail("C16|LM|raises|restricted-domain", "solver raised %r on the %s fit (%s data) from the in-domain start %s although "
+                     "every residual it evaluated was finite" % (err, fam, ydata, x0.tolist()))
+        return
+    res.transitions += it
+    res.evaluations += 1
+    if not np.array_equal(x0c, x0):
+        res.fail("C16|LM|start-vector-altered|restricted-domain", "x0 was modified in place")
+    if it >= maxit:
+        res.count("maxit-reached")
+        res.outcomes.add("domain:maxit:%s:%s" % (ydata, cell["gradtol"]))
+        res.nontrivial = False
+        if ydata == "exact" and cell["gradtol"] == "reachable":
+            with np.errstate(all="ignore"):
+                gx = float(np.linalg.norm(J(x).T @ r(x))) if np.all(np.isfinite(x)) else float("nan")
+            res.fail("C16|LM|no-convergence|restricted-domain", "did not reach ||J^T r|| <= 1e-9 ||J0^T r0|| within %d iterations on the "
+                     "zero-residual %s fit from the in-domain start %s (%d trial residuals partly, %d entirely non-finite; ||J^T r|| = "
+                     "%.3g, initially %.3g)" % (maxit, fam, x0.tolist(), cnt["partly"], cnt["all"], gx, g0n), x=x)
+        return
+    res.count("converged")
+    res.outcomes.add("domain:%s:oob=%s:%s" % (fam, oob, cls))
+    if not left:
+        res.nontrivial = False          # from this start no trial step left the domain: an ordinary smooth run
+    with np.errstate(all="ignore"):
+        finite_x = bool(np.all(np.isfinite(x)))
+        rx = r(x) if finite_x else np.full(len(r0), np.nan)
+        Jx = J(x) if finite_x else np.full(J0.shape, np.nan)
+    if not (finite_x and np.all(np.isfinite(rx)) and np.all(np.isfinite(Jx))):
+        res.fail("C16|LM|nonfinite-result|%s" % fac, "%s fit (%s data), start %s: stopped after %d<maxit iterations and returned x=%s "
+                 "where the residual is %s - not a point of the problem's domain, let alone a stationary point (%d trial residuals "
+                 "were partly, %d entirely non-finite)" % (fam, ydata, x0.tolist(), it, x.tolist(), rx.tolist(), cnt["partly"], cnt["all"]),
+                 x0=x0, x=x)
+        return
+    gn = float(np.linalg.norm(Jx.T @ rx))
+    bound = 1e-7 * g0n + 1e-10 * float(np.linalg.norm(Jx)) * float(np.linalg.norm(rx))
+    if not gn <= bound:
+        res.fail("C16|LM|stationarity|%s" % fac, "%s fit (%s data), start %s: stopped after %d<maxit iterations but ||J^T r|| = %.3g > "
+                 "%.3g (initially %.3g)" % (fam, ydata, x0.tolist(), it, gn, bound, g0n), x=x)
+    try:
+        rf = np.asarray(info["func"], float).ravel()
+        Jf = info["Jac"]
+        Jf = np.asarray(Jf.todense()) if hasattr(Jf, "todense") else np.asarray(Jf, float)
+        if rf.shape != rx.shape or Jf.shape != Jx.shape or not np.all(np.isfinite(rf)) or not np.all(np.isfinite(Jf)) \
+                or not close(rf, rx, 1e-9) or not close(Jf, Jx, 1e-9):
+            res.fail("C16|LM|info|restricted-domain", "info['func']/info['Jac'] are not the residual/Jacobian at the returned point")
+    except Exception as e:
+        res.fail("C16|LM|info|restricted-domain", "info unusable: %r" % (e,))
+    res.sample = {"x0": x0, "x": x, "grad_norm": gn, "initial_grad_norm": g0n, "iterations": it,
+                  "trial_residuals_partly_nonfinite": cnt["partly"], "trial_residuals_all_nonfinite": cnt["all"]}
 
 
 def _eval_lm_rep(cell, res, r0, J0, x0, maxit):
